@@ -110,6 +110,40 @@ impl<'a> LuaDocument<'a> {
             r matches Some((l, c)) ==> l <= u32::MAX && c <= u32::MAX,
     { unimplemented!() }
 }
+/// lsp_types::Position (the two fields read by `push_at_position`)
+pub mod lsp_types {
+    use vstd::prelude::*;
+    verus!{
+    pub struct Position { pub line: u32, pub character: u32 }
+    }
+}
+impl<'a> LuaDocument<'a> {
+    /// proved in unit c22_lineindex (C22.doc.to_lsp_position): the LSP position of an offset is the (line, col) that
+    /// `get_line_col` returns for it, cast to u32 (which fits, lemma_position_fits)
+    #[verifier::external_body]
+    pub fn to_lsp_position(&self, offset: TextSize) -> (r: Option<lsp_types::Position>)
+        requires sp_doc_ok(self), sp_in_doc(self, offset),
+        ensures
+            match r {
+                Some(p) => sp_pos(self, offset) matches Some(lc) && p.line == lc.0 && p.character == lc.1,
+                None => sp_pos(self, offset) is None,
+            },
+    { unimplemented!() }
+}
+/// emmylua_parser::LuaSyntaxToken (= rowan::SyntaxToken<LuaLanguage>), opaque; `text_range()` is an uninterpreted
+/// function of the token
+#[verifier::external_body]
+pub struct LuaSyntaxToken { _p: () }
+pub uninterp spec fn sp_token_range(t: &LuaSyntaxToken) -> TextRange;
+impl LuaSyntaxToken {
+    #[verifier::external_body]
+    pub fn text_range(&self) -> (r: TextRange) ensures r == sp_token_range(self) { unimplemented!() }
+}
+/// input assumption of the `push*` functions: the range is ordered and both ends are offsets of the document on char
+/// boundaries (ranges of tokens of the document's own syntax tree are)
+pub open spec fn range_in_doc(doc: &LuaDocument, range: TextRange) -> bool {
+    range.wf() && sp_in_doc(doc, range.start) && sp_in_doc(doc, range.end)
+}
 /// positions are monotone in the offset — proved in unit c22_lineindex: lemma_line_col_monotonic
 #[verifier::external_body]
 pub proof fn axiom_line_col_monotonic(doc: &LuaDocument, a: TextSize, b: TextSize)
@@ -239,6 +273,21 @@ pub open spec fn pushed_ok(d: SemanticTokenData, mls: bool, s: (usize, usize), e
     }
 }
 
+/// "type and modifier indices inside the advertised legend": the type index addresses an entry of `all_types()`, the
+/// modifier bitset only uses bits 0..all_modifiers().len() (= 10, lemma_modifier_consts_in_legend: two_pow(10) == 1024)
+pub open spec fn raw_in_legend(typ: u32, modifiers: u32) -> bool {
+    typ < SemanticTokenTypeKind::sp_all_types().len() && modifiers < 1024
+}
+pub open spec fn in_legend(p: BasicSemanticTokenData) -> bool { raw_in_legend(p.typ, p.modifiers) }
+/// builder invariant: every piece held is inside the legend
+pub open spec fn legend_inv(s: Seq<SemanticTokenData>) -> bool {
+    forall|j: int| 0 <= j < flat(s).len() ==> in_legend(#[trigger] flat(s)[j])
+}
+pub open spec fn token_in_legend(t: SemanticToken) -> bool { raw_in_legend(t.token_type, t.token_modifiers_bitset) }
+/// the modifier bitset an optional modifier kind stands for
+pub open spec fn opt_bits(m: Option<SemanticTokenModifierKind>) -> u32 { match m { Some(m) => m.0, None => 0 } }
+pub open spec fn opt_legend_bits(m: Option<SemanticTokenModifierKind>) -> bool { match m { Some(m) => legend_bits(m), None => true } }
+
 /// the legend bits: modifier k of the legend is bit k; only bits 0..9 exist in the advertised legend
 pub open spec fn legend_bits(m: SemanticTokenModifierKind) -> bool { m.0 < 1024 }
 pub open spec fn is_legend_const(m: SemanticTokenModifierKind) -> bool {
@@ -313,7 +362,12 @@ impl BitOrAssign for SemanticTokenModifierKind {
 //@@ SemanticTokenData
 //@@ SemanticBuilder
 impl<'a> SemanticBuilder<'a> {
+    //@@ SemanticBuilder::new
     //@@ SemanticBuilder::push_data
+    //@@ SemanticBuilder::push
+    //@@ SemanticBuilder::push_with_modifier
+    //@@ SemanticBuilder::push_at_position
+    //@@ SemanticBuilder::push_at_range
     //@@ SemanticBuilder::build
 }
 
